@@ -42,7 +42,8 @@ NewOkL1(s, New) == \A v \in New : LvOf(s, v) = "live"
 \* modify: replace x's values of attribute a by V.
 \* `refers` additionally must not point at an entry that itself has `refers` (ReferenceLoop).
 SetRef(s, x, a, V) ==
-  LET new == V \ s.ref[x][a]
+  LET new == V \ UNION {s.ref[x][b] : b \in s.attrs}   \* uuids new to the ENTRY (cand_references_to_uuid_filter
+                                                       \* diffs the union over all reference attributes)
       s1  == [s EXCEPT !.ref[x][a] = V]
       ok  == /\ s.lv[x] = "live"
              /\ NewOk(s1, new)
